@@ -21,13 +21,16 @@ Proof. intros dd frags pop_ids projs polarized cd cds EL P E F i.
   clear - EL F. induction F as [|f c frags cds Ef F IH]; cbn [map lsum]; [reflexivity|]. rewrite IH.
   destruct (spectrum_is_sum_of_projections f pop_ids projs polarized c EL Ef) as [_ Gc]. rewrite Gc. reflexivity. Qed.
 
+Lemma perm_filter_length {A} (f : A -> bool) a b : Permutation a b -> length (filter f a) = length (filter f b).
+Proof. induction 1; cbn; try destruct (f x); try destruct (f y); cbn; congruence. Qed.
+
 (** totals: the numbers of usable SNPs of the chunks add up to that of the whole *)
 Corollary chunk_totals_add_up : forall (dd : dict snp) (frags : list (dict snp)) pop_ids projs polarized,
   Permutation (concat frags) dd ->
   length (filter (snp_counts pop_ids projs polarized) (map snd dd))
   = list_sum (map (fun f => length (filter (snp_counts pop_ids projs polarized) (map snd f))) frags).
 Proof. intros dd frags pop_ids projs polarized P.
-  rewrite <- (Permutation_length (Permutation_filter _ (Permutation_map snd P))).
+  rewrite <- (perm_filter_length _ _ _ (Permutation_map snd P)).
   clear. induction frags as [|f frags IH]; cbn; [reflexivity|].
   rewrite map_app, filter_app, app_length, IH. reflexivity. Qed.
 
